@@ -28,7 +28,7 @@ impl Compiler {
     fn pop_loop(&mut self) -> (r: Result<(), CompilerError>) ensures final(self).chunk.code@.len() == old(self).chunk.code@.len() { unimplemented!() }
 }
 
-pub struct Parser { pub comp: Compiler, pub ghost targets: Map<int, int>, pub ghost had_error: bool }
+pub struct Parser { pub comp: Compiler, pub ghost targets: Map<int, int>, pub ghost had_error: bool, pub ghost parsed_at: Seq<Precedence> }
 
 impl Parser {
     pub open spec fn code(&self) -> Seq<u8> { self.comp.chunk.code@ }
@@ -49,11 +49,11 @@ impl Parser {
     // ---- emitters (byte-level contracts: unit `compiler`)
     #[verifier::external_body]
     fn emit_byte(&mut self, byte: u8)
-        ensures final(self).code() == old(self).code().push(byte), final(self).targets == old(self).targets, final(self).had_error == old(self).had_error
+        ensures final(self).parsed_at == old(self).parsed_at, final(self).code() == old(self).code().push(byte), final(self).targets == old(self).targets, final(self).had_error == old(self).had_error
     { unimplemented!() }
     #[verifier::external_body]
     fn emit_jump(&mut self, instruction: OpCode) -> (r: usize)
-        ensures final(self).code() == old(self).code().push(opcode_byte(instruction)).push(0xffu8).push(0xffu8), r == old(self).code().len() + 1,
+        ensures final(self).parsed_at == old(self).parsed_at, final(self).code() == old(self).code().push(opcode_byte(instruction)).push(0xffu8).push(0xffu8), r == old(self).code().len() + 1,
             final(self).targets == old(self).targets, final(self).had_error == old(self).had_error,
     { unimplemented!() }
     // C04 (compiler/Parser::patch_jump + flowvm): a taken jump whose operand sits at `offset` continues at the current end
@@ -61,7 +61,7 @@ impl Parser {
     #[verifier::external_body]
     fn patch_jump(&mut self, offset: usize)
         requires offset + 2 <= old(self).code().len()
-        ensures final(self).code().len() == old(self).code().len(),
+        ensures final(self).parsed_at == old(self).parsed_at, final(self).code().len() == old(self).code().len(),
             forall|j: int| 0 <= j < old(self).code().len() && j != offset && j != offset + 1 ==> #[trigger] final(self).code()[j] == old(self).code()[j],
             final(self).targets == old(self).targets.insert(offset as int, old(self).code().len() as int), old(self).had_error ==> final(self).had_error,
     { unimplemented!() }
@@ -77,7 +77,7 @@ impl Parser {
     #[verifier::external_body]
     fn expression(&mut self) ensures old(self).extends(final(self)) { unimplemented!() }
     #[verifier::external_body]
-    fn parse_precedence(&mut self, precedence: Precedence) ensures old(self).extends(final(self)) { unimplemented!() }
+    fn parse_precedence(&mut self, precedence: Precedence) ensures old(self).extends(final(self)), final(self).parsed_at == old(self).parsed_at.push(precedence) { unimplemented!() }
     #[verifier::external_body]
     fn block(&mut self) ensures old(self).extends(final(self)) { unimplemented!() }
     #[verifier::external_body]
@@ -121,6 +121,7 @@ impl Parser {
     //@fn file=yarel/src/compiler.rs path=Parser::and
     //@  rewrite R21
     //@  requires old(s).code().len() < 0x4000_0000_0000_0000
+    //@  ensures @right_operand_binds_at_the_level_of_and final(s).parsed_at == old(s).parsed_at.push(Precedence::And)
     //@  ensures @falsey_left_operand_skips_the_right_operand final(s).code()[old(s).code().len() as int] == opcode_byte(OpCode::JumpIfFalse) && final(s).targets.dom().contains(old(s).code().len() as int + 1) && final(s).targets[old(s).code().len() as int + 1] == final(s).code().len() && final(s).code()[old(s).code().len() as int + 3] == opcode_byte(OpCode::Pop)
     //@end
 
@@ -128,6 +129,7 @@ impl Parser {
     //@fn file=yarel/src/compiler.rs path=Parser::or
     //@  rewrite R21
     //@  requires old(s).code().len() < 0x4000_0000_0000_0000
+    //@  ensures @right_operand_binds_at_the_level_of_or final(s).parsed_at == old(s).parsed_at.push(Precedence::Or)
     //@  ensures @truthy_left_operand_skips_the_right_operand ({ let n = old(s).code().len() as int; final(s).code()[n] == opcode_byte(OpCode::JumpIfFalse) && final(s).code()[n + 3] == opcode_byte(OpCode::Jump) && final(s).targets.dom().contains(n + 1) && final(s).targets[n + 1] == n + 6 && final(s).code()[n + 6] == opcode_byte(OpCode::Pop) && final(s).targets.dom().contains(n + 4) && final(s).targets[n + 4] == final(s).code().len() })
     //@end
 }
